@@ -89,9 +89,20 @@ pub fn gen_segment_map(rng: &mut Rng) -> Vec<(i16, i16)> {
         }
         let lo = pts[i - 1].1;
         let hi: i16 = if f < 0 { 0 } else { 16384 };
-        pts[i].1 = match rng.below(5) {
+        // slope families relative to the previous point: flat, jump to the
+        // cap, exactly 1 (a translated copy of the identity line when the
+        // previous point is off it), exactly 2, exactly 1/2, or arbitrary.
+        let run = f as i64 - pts[i - 1].0 as i64;
+        let with_slope = |num: i64, den: i64| -> Option<i16> {
+            let t = lo as i64 + run * num / den;
+            (t >= lo as i64 && t <= hi as i64).then_some(t as i16)
+        };
+        pts[i].1 = match rng.below(8) {
             0 => lo,
             1 => hi,
+            2 | 3 => with_slope(1, 1).unwrap_or(hi),
+            4 => with_slope(2, 1).unwrap_or(hi),
+            5 => with_slope(1, 2).unwrap_or(lo),
             _ => rng.range(lo as i64, hi as i64) as i16,
         };
     }
